@@ -824,6 +824,11 @@ class SemanticErrorChecker:
         left = expression["left"]
         right = expression["right"]
 
+        # operands given as attribute access have to be resolvable before their type is looked up
+        for side in (left, right):
+            if isinstance(side, list) and not self.check_attribute_access(side, context, task):
+                return False
+
         if expression["binOp"] in ["<", ">", "<=", ">="]:
             # Check if left and right side represent numbers or strings
             if self.expression_is_number(left, task) and self.expression_is_number(right, task):
